@@ -1,7 +1,7 @@
 SPECIFICATION Spec
 CONSTANTS
   USeq <- UH
-  Scenarios <- ScenHSmall
+  Scenarios <- ScenHSmall2
   Grids = {"pow", "neg"}
   Orders = {"time", "series"}
   NT = 2
